@@ -5,6 +5,7 @@ import (
 	"go/ast"
 	"go/printer"
 	"go/types"
+	"sort"
 	"strings"
 )
 
@@ -23,6 +24,10 @@ func doDump(p *Prog, what string) {
 	case what == "intdiv":
 		for _, d := range p.IntDivisions() {
 			fmt.Printf("%s in %s: %s   divisor=%s\n", p.Pos(d.Expr), d.Fn.Name, p.Src(d.Expr), p.R(d.Fn).Val(d.Expr.Y))
+		}
+	case what == "perpeer":
+		for _, f := range p.PerPeerFields() {
+			fmt.Println(f.Name, f.Depth)
 		}
 	case what == "alias":
 		dumpAlias(p)
@@ -109,5 +114,63 @@ func (p *Prog) IntDivisions() []IntDiv {
 			return true
 		})
 	}
+	return out
+}
+
+// PerPeerFields lists struct fields of module types that are maps keyed by peer.ID (depth <= 2).
+type PerPeerField struct {
+	Name  string // Struct.field
+	Depth int    // 1: map[peer.ID]..., 2: map[K]map[peer.ID]...
+}
+
+func isPeerID(t types.Type) bool {
+	n, ok := t.(*types.Named)
+	return ok && n.Obj().Name() == "ID" && n.Obj().Pkg() != nil && strings.HasSuffix(n.Obj().Pkg().Path(), "core/peer")
+}
+
+func (p *Prog) PerPeerFields() []PerPeerField {
+	var out []PerPeerField
+	for _, pk := range p.Pkgs {
+		if strings.HasSuffix(pk.PkgPath, "/pb") || strings.Contains(pk.PkgPath, "/internal/") {
+			continue
+		}
+		sc := pk.Types.Scope()
+		for _, nm := range sc.Names() {
+			tn, ok := sc.Lookup(nm).(*types.TypeName)
+			if !ok {
+				continue
+			}
+			st, ok := tn.Type().Underlying().(*types.Struct)
+			if !ok {
+				continue
+			}
+			owner := nm
+			if sp := shortPkg(pk.PkgPath, modPath); sp != "" {
+				owner = sp + "." + nm
+			}
+			for i := 0; i < st.NumFields(); i++ {
+				ft := st.Field(i).Type()
+				if pt, ok := ft.(*types.Pointer); ok {
+					ft = pt.Elem()
+				}
+				m, ok := ft.Underlying().(*types.Map)
+				if !ok {
+					continue
+				}
+				if isPeerID(m.Key()) {
+					out = append(out, PerPeerField{owner + "." + st.Field(i).Name(), 1})
+					continue
+				}
+				et := m.Elem()
+				if pt, ok := et.(*types.Pointer); ok {
+					et = pt.Elem()
+				}
+				if m2, ok := et.Underlying().(*types.Map); ok && isPeerID(m2.Key()) {
+					out = append(out, PerPeerField{owner + "." + st.Field(i).Name(), 2})
+				}
+			}
+		}
+	}
+	sort.Slice(out, func(i, j int) bool { return out[i].Name < out[j].Name })
 	return out
 }
